@@ -126,3 +126,40 @@ Theorem verify_read_fresh_refuted_without_fresh_entry :
     firstn (N.to_nat (n_commit a)) (p_log (n_p b)) <> firstn (N.to_nat (n_commit a)) (p_log (n_p a)).
 Proof. exact verify_read_fresh_refuted_without_fresh_entry_ex. Qed.
 Print Assumptions verify_read_fresh_refuted_without_fresh_entry.
+
+From BLB Require Import Raft.MemberVotes Raft.MemberRun C03.VerifyFreshM C03.VerifyFreshMExample.
+
+(* [FULL] verify_read_fresh ACROSS MEMBERSHIP CHANGE, the mstepS alphabet of C02 round 8 - every event on any node
+   including AddNode and RemoveNode as the core accepts or refuses them, restarts, crashes after any durable
+   mutation, any deliveries; one bootstrap membership without duplicates, no SnapshotDone, proposals carry no
+   configuration entries, no node is asked to add itself; no condition on the configurations. Same statement as
+   verify_read_fresh. Proved by replaying the freshness lemma on the round-8 invariant MS; nothing that MS does not
+   export was needed *)
+Theorem verify_read_fresh_membership_change :
+  forall (bm : list nid) (be : N), NoDup bm ->
+  forall (a0 a1 a2 : asys) (sched1 sched2 : list sys_event),
+    minitS a0 -> run asys sys_event (mstepS bm be) a0 sched1 a1 -> run asys sys_event (mstepS bm be) a1 sched2 a2 ->
+    forall a b1 b i e,
+      In a (sy_nodes (fst a1)) -> In b1 (sy_nodes (fst a1)) -> In b (sy_nodes (fst a2)) ->
+      n_role b1 = Leader -> n_id b1 = n_id b -> p_term (n_p b1) = p_term (n_p b) ->
+      (length (p_log (n_p b1)) <= i)%nat -> nth_error (p_log (n_p b)) i = Some e -> e_term e = p_term (n_p b) ->
+      (i < N.to_nat (n_commit b))%nat ->
+      (N.to_nat (n_commit a) <= N.to_nat (n_commit b))%nat /\
+      firstn (N.to_nat (n_commit a)) (p_log (n_p b)) = firstn (N.to_nat (n_commit a)) (p_log (n_p a)).
+Proof. exact verify_read_fresh_membership_change_sys. Qed.
+Print Assumptions verify_read_fresh_membership_change.
+
+(* [FULL] non-vacuity with a membership change inside the window: C02's run A - bootstrap of nodes 1 and 2, node 1 leader of
+   term 2 at the request, then AddNode 3 accepted, its configuration entry of term 2 committed under the three-node
+   configuration while node 1 is still Leader of term 2 - meets every hypothesis of verify_read_fresh_membership_change *)
+Theorem verify_read_fresh_membership_change_nonvacuous :
+  exists a0 a1 a2 s1 s2 a b1 b i e,
+    minitS a0 /\ NoDup [1; 2] /\
+    run asys sys_event (mstepS [1; 2] 5) a0 s1 a1 /\ run asys sys_event (mstepS [1; 2] 5) a1 s2 a2 /\
+    In (1, EAddNode 3 77, 0) s2 /\
+    In a (sy_nodes (fst a1)) /\ In b1 (sy_nodes (fst a1)) /\ In b (sy_nodes (fst a2)) /\
+    n_role b1 = Leader /\ n_role b = Leader /\ n_id b1 = n_id b /\ p_term (n_p b1) = p_term (n_p b) /\
+    (length (p_log (n_p b1)) <= i)%nat /\ nth_error (p_log (n_p b)) i = Some e /\ e_term e = p_term (n_p b) /\
+    e_type e = EntryConf /\ (i < N.to_nat (n_commit b))%nat /\ 0 < n_commit a.
+Proof. exact verify_read_fresh_membership_change_nonvacuous_ex. Qed.
+Print Assumptions verify_read_fresh_membership_change_nonvacuous.
